@@ -52,15 +52,36 @@ func withText(first string, n int) []repFrame {
 	return out
 }
 
-// event names for which the five family handlers are registered on every socket
-var repEventNames = []string{"a", "", "_", ":", "a\"", "\\"}
+// repEventNames: the event names for which the five family handlers are registered on every socket = the
+// names carried by the representatives (computed with the pure decoder, deterministically).
+var repEventNames = func() []string {
+	seen := map[string]bool{"a": true, "": true}
+	for _, rp := range representatives() {
+		p := newParser(0)
+		for _, f := range rp.Frames {
+			r := step(p, []byte(f.Data))
+			if r.kind == stepFinished && r.header.IsEvent() && !sio.IsEventReservedForServer(r.event) {
+				seen[r.event] = true
+			}
+			if r.kind != stepPending {
+				break
+			}
+		}
+	}
+	return sortedKeys(seen)
+}()
 
 const ph0 = `{"_placeholder":true,"num":0}`
 
-// representatives: the shortest input of every outcome class the decoder half distinguishes (classes as
-// printed in the evidence under decoder_classes; the coordinator cross-checks that none is missing), plus
-// the inputs known to panic.
+// representatives: the shortest input of every outcome class the decoder half distinguishes (reps_gen.go;
+// classes as printed in the evidence under decoder_classes; the coordinator cross-checks that none is
+// missing), plus hand-picked inputs: the ones known to panic, text frames where binary is expected, valid
+// packets.
 func representatives() []rep {
+	return append(append([]rep{}, classReps...), extraReps()...)
+}
+
+func extraReps() []rep {
 	return []rep{
 		// ---- header rejected by Add
 		{"add-error/empty-frame", txt("")},
